@@ -212,7 +212,7 @@ RefShape == LET rf == ref IN
   /\ (rf.res # "TypeError" => rf.res = rf.log[Len(rf.log)].mid /\ Val(rf.res) # NI)
   /\ \A i \in 1..Len(rf.log) : (i < Len(rf.log) \/ rf.res = "TypeError") => Val(rf.log[i].mid) = NI
 
-(* Imp = Ref.  With AllPython = TRUE this says that CPython's algorithm on plain classes is the    *)
+(* Imp = Ref.  In states with allpy = TRUE this says that CPython's algorithm on plain classes is the *)
 (* language-reference protocol (must hold); with the cdef classes it is what C28 demands.           *)
 ImplAgrees == IsCase => imp = ref
 RefIsCPythonOnPlainClasses == (IsCase /\ allpy) => imp = ref
